@@ -92,6 +92,7 @@ static FWire c11_load(Reader& r, FReader& fr) {
         out.f.push_back(geo.indicator(geo.meshes()[i],geo.meshes()[j]));
     }
     for (size_t i=0;i<nm;++i) out.f.push_back(geo.conductivity_jump(geo.meshes()[i]));
+    for (const auto& dm : geo.domains()) out.f.push_back(dm.conductivity());
     // names and conductivities by domain, for the name-level comparison done by the check (not part of the model wire)
     {
         std::ofstream nf(d+"/loaded.txt");
